@@ -6,6 +6,7 @@ import (
 	"fmt"
 	"io"
 	"sync"
+	"sync/atomic"
 	"time"
 
 	"google.golang.org/protobuf/proto"
@@ -613,6 +614,90 @@ func handleScen() {
 	})
 }
 
+// recClient counts the events of its loggers (atomics: the harness side is not scheduled).
+type recClient struct{ exports, logs, failures atomic.Int64 }
+
+type recLogger struct{ c *recClient }
+
+func (l recLogger) Log(uint32, int)     { l.c.logs.Add(1) }
+func (l recLogger) LogFailure()         { l.c.failures.Add(1) }
+func (l recLogger) LogKeyExport(uint32) { l.c.exports.Add(1) }
+func (c *recClient) NewLogger(*monitoring.Context) (monitoring.Logger, error) {
+	return recLogger{c}, nil
+}
+
+type monShared struct {
+	hd  *keyset.Handle
+	rec *recClient
+}
+
+// monitoredHandleScen: read operations on a handle WITH monitoring annotations while a monitoring client is
+// registered: key exports through Entry.Key() concurrent with the Write family (which must not report, nor
+// disturb the reporting of others). Every key export is reported exactly once: the post-join probe (number of
+// key-export events the client received) must be that of some sequential order of the calls.
+func monitoredHandleScen() {
+	type parts struct {
+		shared                   func() any
+		key0, key1, write, clear call
+		exports, info            call
+	}
+	mk := func() parts {
+		ks := insecurecleartextkeyset.KeysetMaterial(twoKeyHandle(aead.AES128GCMKeyTemplate(), aead.AES256GCMSIVKeyTemplate()))
+		keyOf := func(i int) call {
+			return call{fmt.Sprintf("Entry(%d).Key()", i), func(sh any) string {
+				e, err := sh.(*monShared).hd.Entry(i)
+				if err != nil {
+					return "ERR:" + err.Error()
+				}
+				k := e.Key()
+				id, _ := k.IDRequirement()
+				return fmt.Sprintf("key id=%d", id)
+			}}
+		}
+		kek := must(aead.New(handleFrom(aead.AES256GCMKeyTemplate())))
+		var p parts
+		p.key0, p.key1 = keyOf(0), keyOf(1)
+		// the ENCRYPTED write (Handle.Write: serialises without reporting key exports) ...
+		p.write = call{"Handle.Write(encrypted)", func(sh any) string {
+			var buf bytes.Buffer
+			err := sh.(*monShared).hd.Write(keyset.NewBinaryWriter(&buf), kek)
+			return render([]byte(fmt.Sprint(buf.Len())), err)
+		}}
+		// ... and the cleartext export (reports one key export per key)
+		p.clear = call{"insecurecleartextkeyset.Write", func(sh any) string {
+			var buf bytes.Buffer
+			err := insecurecleartextkeyset.Write(sh.(*monShared).hd, keyset.NewBinaryWriter(&buf))
+			return render(buf.Bytes(), err)
+		}}
+		p.info = call{"KeysetInfo+String", func(sh any) string {
+			h := sh.(*monShared).hd
+			return h.String() + "|" + fmt.Sprint(h.KeysetInfo())
+		}}
+		p.exports = call{"key-export events received", func(sh any) string { return fmt.Sprint(sh.(*monShared).rec.exports.Load()) }}
+		p.shared = func() any {
+			rec := &recClient{}
+			vb.ClearMonitoringClient()
+			if err := vb.RegisterMonitoringClient(rec); err != nil {
+				panic(err)
+			}
+			m := keyset.NewManagerFromHandle(freshHandle(ks))
+			if err := m.SetAnnotations(map[string]string{"k": "v"}); err != nil {
+				panic(err)
+			}
+			return &monShared{must(m.Handle()), rec}
+		}
+		return p
+	}
+	add("monitored-handle-key-export-vs-write", func() *built {
+		p := mk()
+		return &built{newShared: p.shared, threads: threads22(p.key0, p.write, p.write, p.key0), probes: []call{p.exports, p.info}}
+	}).linearizable = true
+	add("monitored-handle-cleartext-export-vs-write", func() *built {
+		p := mk()
+		return &built{newShared: p.shared, threads: threads22(p.clear, p.key1, p.write, p.write), probes: []call{p.exports, p.info}}
+	}).linearizable = true
+}
+
 func registryScen() {
 	add("registry-lookups", func() *built {
 		kd := must(registry.NewKeyData(aead.AES128GCMKeyTemplate()))
@@ -817,6 +902,7 @@ func registerScenarios() {
 	multiKeyClassScen()
 	derivationScen()
 	handleScen()
+	monitoredHandleScen()
 	registryScen()
 	// three threads, one call each, on the hand-written symmetric cores
 	add("three-threads-aesgcmsiv", func() *built {
